@@ -4,8 +4,6 @@ From C33 Require Import Lib.Harness C31.Model C31.Spec C31.Proofs.
 Import ListNotations.
 Open Scope N_scope.
 
-Definition is_single (b : bundle) : bool := match b with BSingle _ _ => true | BGroup _ => false end.
-
 (** plain submissions (not proxied): every enforcement point rejects *)
 Lemma position_plain :
   forall cks L set e b,
@@ -17,12 +15,14 @@ Lemma position_plain :
        (forall bs, ~ In b (prod_out cks set e bs))) /\
     pool_rejects cks set b = true /\
     (forall base, pool_reply cks set b base <> ROk) /\
-    (is_single b = true -> delay_rejects cks set b = true).
+    delay_rejects cks set b = true /\
+    (forall base, delay_reply cks set b base = RBlocked).
 Proof.
   intros cks L set e b HP H0 PL HT.
   destruct (plain_views cks L e b PL) as [E1 E2].
   rewrite E1 in HT.
-  split; [|split; [|split]].
+  pose proof (delay_rejects_outer cks L set b HP HT) as RD.
+  split; [|split; [|split; [|split]]].
   - intro A.
     assert (R : exec_rejects cks set e b = true).
     { apply (exec_rejects_view cks L set e b HP H0 A). rewrite E2. exact HT. }
@@ -32,9 +32,8 @@ Proof.
     + intro bs. apply (prod_out_excludes cks L set e b bs HP A HT).
   - apply (pool_rejects_outer cks L set b HP HT).
   - intro base. apply (pool_reply_never_ok cks L set b base HP HT).
-  - intro S. destruct b as [t inner|ts]; [|discriminate].
-    apply (delay_rejects_head cks L set _ HP).
-    rewrite (single_head cks L e t inner PL), E1. exact HT.
+  - exact RD.
+  - intro base. unfold delay_reply. rewrite RD. reflexivity.
 Qed.
 
 (** every enforcement point rejects what it looks at (all submissions) *)
@@ -48,7 +47,7 @@ Lemma position_views :
        prod_rejects cks set e b = true /\ forall bs, ~ In b (prod_out cks set e bs)) /\
     (outer_touches cks L b = true ->
        pool_rejects cks set b = true /\ forall base, pool_reply cks set b base <> ROk) /\
-    (head_touches cks L b = true ->
+    (outer_touches cks L b = true ->
        delay_rejects cks set b = true /\ forall base, delay_reply cks set b base = RBlocked).
 Proof.
   intros cks L set e b HP. split; [|split; [|split]].
@@ -59,7 +58,7 @@ Proof.
     intro bs. apply (prod_out_excludes cks L set e b bs HP A HT).
   - intro HT. split; [apply (pool_rejects_outer cks L set b HP HT)|].
     intro base. apply (pool_reply_never_ok cks L set b base HP HT).
-  - intro HT. pose proof (delay_rejects_head cks L set b HP HT) as R.
+  - intro HT. pose proof (delay_rejects_outer cks L set b HP HT) as R.
     split; [exact R|]. intro base. unfold delay_reply. rewrite R. reflexivity.
 Qed.
 
@@ -68,12 +67,18 @@ Lemma pool_every_height :
   forall cks L set (e : env) b,
     parse_list cks L = Some set -> outer_touches cks L b = true ->
     pool_rejects cks set b = true /\ (forall base, pool_reply cks set b base <> ROk) /\
-    (head_touches cks L b = true -> delay_rejects cks set b = true).
+    delay_rejects cks set b = true.
 Proof.
   intros cks L set e b HP HT. split; [apply (pool_rejects_outer cks L set b HP HT)|].
   split; [intro base; apply (pool_reply_never_ok cks L set b base HP HT)|].
-  intro HH. apply (delay_rejects_head cks L set b HP HH).
+  apply (delay_rejects_outer cks L set b HP HT).
 Qed.
+
+(** the delay entry points apply the pool's per-member blacklist check to the
+    same transactions as the pool: the submission itself and every member of its group *)
+Lemma delay_entry_all_members :
+  forall cks set b, delay_rejects cks set b = chk_txs_imm cks set (members b).
+Proof. exact delay_rejects_members. Qed.
 
 (** proxied: the executor checks the unwrapped transaction *)
 Lemma proxy_inner_exec :
@@ -120,7 +125,9 @@ Proof.
       * rewrite C1. reflexivity.
     + rewrite C. reflexivity.
   - destruct b as [t inner|ts]; simpl; [apply C1|apply C].
-  - unfold delay_rejects. destruct (head b); reflexivity.
+  - rewrite delay_rejects_members. unfold chk_txs_imm.
+    induction (members b) as [|t tl IH]; [reflexivity|].
+    cbn [existsb]. change (chk_imm cks [] t) with false. exact IH.
 Qed.
 
 (** rejections are not arbitrary *)
